@@ -248,11 +248,13 @@ def run(tier):
     for (o, m, c) in NEST:
         for n in ((64, 1024, 2048, 3300, 8192, 30000) if tier == "quick" else (64, 255, 256, 1024, 1900, 2048, 3300, 3400, 5000, 8192, 12000, 30000, 100000)):
             txt = o * n + m + c * n + ('"' if m == '"' else "")
-            ncmds.append("\t".join(["parse", str(len(ncmds)), "t=120", zw.hexq(txt.encode())])); nmeta.append((o, m, c, n))
-    nby = {r.get("id"): r for r in zw.run_driver(os.path.join(plain, "bin", "zwdrv"), ncmds, wd, tag="nest", max_hangs=10**9)}
+            ncmds.append("\t".join(["parse", str(len(ncmds)), "t=60", zw.hexq(txt.encode())])); nmeta.append((o, m, c, n))
+    nby = {r.get("id"): r for r in zw.run_driver(os.path.join(plain, "bin", "zwdrv"), ncmds, wd, tag="nest", max_hangs=6)}
     for i, (o, m, c, n) in enumerate(nmeta):
         vd.cov["evaluations"] += 1
         r = nby.get(str(i)) or {}
+        if r.get("status") == "skipped-after-hangs":
+            continue                       # six hangs are reported; the rest of the sweep is not run on such a tree
         if r.get("status") not in ("accepted", "rejected") or "contract" in r:
             vd.observe("deep nesting: `%s' x %d around `%s' closed by `%s' x %d: %s" % (o, n, m, c, n, r.get("status")), {"observed": r})
     vd.cov["traces_validated_against_impl"] = nontriv
